@@ -96,7 +96,16 @@ def check(run):
                 "with the Float model, the exact (rational) model and the CSS definition (tinycss2.color3). distinct = distinct "
                 "(value, background); all non-trivial" % ("4096 three-digit + 20k six-digit strings x case x '#'" if q else "all 4096 three-digit and all 16,777,216 six-digit strings", n))
 
+    import zlib
+
     def impl(v, bg=None):
+        # every third value (by a checksum of the case) is first parsed on its own, without a background: the result for (value,
+        # background) must not depend on what was parsed before
+        if bg is not None and zlib.crc32(repr((v, bg)).encode()) % 3 == 0:
+            try:
+                parse_color_to_rgb(v)
+            except Exception:  # noqa
+                pass
         try:
             return tuple(parse_color_to_rgb(v, background=bg))
         except Exception as e:  # noqa
